@@ -607,5 +607,37 @@ func (p *pkg) emitPsiGen() string {
 	if strings.Contains(out, "(sint ") {
 		head += "(* intN(x) for an unsigned x of at least N bits: the two's complement reading of its low N bits *)\nDefinition sint (w x : Z) : Z := (x + 2 ^ (w - 1)) mod 2 ^ w - 2 ^ (w - 1).\n\n"
 	}
-	return head + p.emitSetters() + out
+	return head + p.emitSetters() + out + p.psiTactics()
+}
+
+// psiTactics: the record plumbing of this file (setters, the projections and zero values of the records they update) as
+// two normalisation tactics, so that a proof does not have to name a setter that a change of the source may remove.
+func (p *pkg) psiTactics() string {
+	var keys []string
+	structs := map[string]bool{}
+	for k := range usedSetters {
+		keys = append(keys, k)
+		structs[strings.SplitN(k, ".", 2)[0]] = true
+	}
+	sort.Strings(keys)
+	names := []string{"fst", "snd", "odflt"}
+	for _, k := range keys {
+		parts := strings.SplitN(k, ".", 2)
+		names = append(names, "set_"+parts[0]+"_"+parts[1])
+	}
+	var sn []string
+	for s := range structs {
+		sn = append(sn, s)
+	}
+	sort.Strings(sn)
+	for _, s := range sn {
+		names = append(names, "zero_"+s)
+		for _, f := range p.structs[s].Fields.List {
+			for _, id := range f.Names {
+				names = append(names, s+"_"+id.Name)
+			}
+		}
+	}
+	l := strings.Join(names, " ")
+	return "(* the record plumbing of this file, for the proofs *)\nLtac psigen_cbv := cbv beta iota zeta delta [" + l + "].\nLtac psigen_cbn := cbn beta iota zeta delta [" + l + "].\nLtac psigen_cbv_in H := cbv beta iota zeta delta [" + l + "] in H.\n"
 }
